@@ -129,5 +129,7 @@ def run(ctx):
     n = haversine.check_all(ctx, crate)
     ctx.floor("haversine-call-sites", n, 4)
     ctx.not_decided("the no-miss claim itself: that the start cells cover the cone, that the per-depth distance bounds are upper bounds, haversine rounding (float geometry)")
+    from rules import cancellation
+    cancellation.check(ctx, ctx.crate("rel"), ['nested::cone_coverage_approx', 'nested::cone_coverage_approx_custom', 'nested::cone_coverage_approx_flat', 'nested::Layer::cone_coverage_approx', 'nested::Layer::cone_coverage_approx_custom'], floor=69)
     from rules import controls
     controls.haversine_controls(ctx)
